@@ -53,7 +53,8 @@ func main() {
 	ov := overlay{Replace: map[string]string{}}
 
 	// 1. rewritten packages
-	for _, pkg := range []string{"memdb", "resp", "util"} {
+	for _, pkg := range []string{"memdb", "resp", "util", "server"} {
+		curOpts = pkgOpts[pkg]
 		dir := filepath.Join(*repo, pkg)
 		ents, err := os.ReadDir(dir)
 		if err != nil {
@@ -111,7 +112,29 @@ func main() {
 	fmt.Printf("instr: %d files in overlay\n", len(keys))
 }
 
-// rewriteFile applies the sync/time/go/select rewrites to one file.
+// opts selects the rewrites of a package.
+type opts struct {
+	time    bool            // time -> vtime
+	chanOps bool            // channel sends / receives / close / binding selects -> vsync helpers
+	skip    map[string]bool // functions left exactly as they are (native goroutines, channels, selects)
+}
+
+// memdb and util keep the rewrites they always had (their channels are closed / timer channels, which
+// vsync.Select observes natively).  resp and server additionally get their channel operations
+// rewritten, so that a connection handler (server.Manager.Handle) and its parser goroutine
+// (resp.ParseStream) run under the controlled scheduler.  The cluster path of package server shares
+// native channels with the un-instrumented raftexample package and is driven free-running only: those
+// functions are left alone.  server keeps the real clock (it has no timers of its own).
+var pkgOpts = map[string]opts{
+	"memdb":  {time: true},
+	"util":   {time: true},
+	"resp":   {time: true, chanOps: true},
+	"server": {chanOps: true, skip: map[string]bool{"HandleCluster": true, "handleClusterCommits": true, "Start": true}},
+}
+
+var curOpts opts
+
+// rewriteFile applies the sync/time/go/select (and channel) rewrites to one file.
 func rewriteFile(path string) ([]byte, bool) {
 	fset := token.NewFileSet()
 	f, err := parser.ParseFile(fset, path, nil, parser.ParseComments)
@@ -130,6 +153,9 @@ func rewriteFile(path string) ([]byte, bool) {
 			im.Name = ast.NewIdent("sync")
 			changed = true
 		case "time":
+			if !curOpts.time {
+				continue
+			}
 			if im.Name != nil && im.Name.Name != "time" {
 				die("%s: renamed time import unsupported", path)
 			}
@@ -155,14 +181,41 @@ func rewriteFile(path string) ([]byte, bool) {
 				cc := c.(*ast.CommClause)
 				rewriteStmts(cc.Body)
 			}
+			if curOpts.chanOps {
+				return selectToVsyncB(st, path, fset)
+			}
 			return selectToVsync(st, path, fset)
+		case *ast.SendStmt:
+			if curOpts.chanOps {
+				needV = true
+				replaceRecvs(st, &needV)
+				return &ast.ExprStmt{X: &ast.CallExpr{Fun: vsel("Send"), Args: []ast.Expr{st.Chan, st.Value}}}
+			}
+		case *ast.RangeStmt:
+			if curOpts.chanOps && st.Key != nil && st.Value == nil {
+				// `for x := range ch` cannot be told from a range over a slice/map/int without types;
+				// a range over a channel has exactly one iteration variable - refuse names that look
+				// like channels rather than guess
+				if id, ok := st.X.(*ast.Ident); ok && (strings.HasSuffix(id.Name, "C") || strings.HasSuffix(strings.ToLower(id.Name), "ch") || strings.HasSuffix(strings.ToLower(id.Name), "chan")) {
+					die("%s: range over what looks like a channel (%s) is not supported by the channel rewrite", fset.Position(st.Pos()), id.Name)
+				}
+			}
 		case *ast.LabeledStmt:
 			st.Stmt = rewriteStmt(st.Stmt)
 			return st
 		}
+		if curOpts.chanOps {
+			// plain receives and close() in the expressions of this statement (nested statement lists
+			// are reached through the recursion below, one statement at a time)
+			replaceRecvs(s, &needV)
+		}
 		// recurse into nested statement lists
 		ast.Inspect(s, func(n ast.Node) bool {
 			switch b := n.(type) {
+			case *ast.IfStmt:
+				if ast.Stmt(b) != s && curOpts.chanOps {
+					replaceRecvs(b, &needV) // an else-if: its init / condition
+				}
 			case *ast.BlockStmt:
 				rewriteStmts(b.List)
 				return false
@@ -187,6 +240,9 @@ func rewriteFile(path string) ([]byte, bool) {
 	}
 	for _, d := range f.Decls {
 		if fd, ok := d.(*ast.FuncDecl); ok && fd.Body != nil {
+			if curOpts.skip[fd.Name.Name] {
+				continue
+			}
 			rewriteStmts(fd.Body.List)
 		}
 		if gd, ok := d.(*ast.GenDecl); ok {
@@ -273,6 +329,187 @@ func goToVsync(st *ast.GoStmt, path string, fset *token.FileSet) ast.Stmt {
 	}
 	blk.List = append(blk.List, goCall)
 	return blk
+}
+
+func vsel(name string) ast.Expr {
+	return &ast.SelectorExpr{X: ast.NewIdent("verifvsync"), Sel: ast.NewIdent(name)}
+}
+
+// replaceRecvs rewrites, in the expressions that belong directly to statement s (not to statements
+// nested in it, not inside function literals, not in select headers):
+//
+//	v, ok := <-ch   ->  v, ok := verifvsync.Recv2(ch)
+//	<-ch            ->  verifvsync.Recv(ch)
+//	close(ch)       ->  verifvsync.Close(ch)
+func replaceRecvs(s ast.Stmt, needV *bool) {
+	if as, ok := s.(*ast.AssignStmt); ok && len(as.Lhs) == 2 && len(as.Rhs) == 1 {
+		if ue, ok := as.Rhs[0].(*ast.UnaryExpr); ok && ue.Op == token.ARROW {
+			as.Rhs[0] = &ast.CallExpr{Fun: vsel("Recv2"), Args: []ast.Expr{ue.X}}
+			*needV = true
+		}
+	}
+	var fix func(e ast.Expr) ast.Expr
+	fix = func(e ast.Expr) ast.Expr {
+		switch x := e.(type) {
+		case *ast.UnaryExpr:
+			x.X = fix(x.X)
+			if x.Op == token.ARROW {
+				*needV = true
+				return &ast.CallExpr{Fun: vsel("Recv"), Args: []ast.Expr{x.X}}
+			}
+		case *ast.CallExpr:
+			x.Fun = fix(x.Fun)
+			for i := range x.Args {
+				x.Args[i] = fix(x.Args[i])
+			}
+			if id, ok := x.Fun.(*ast.Ident); ok && id.Name == "close" && len(x.Args) == 1 {
+				*needV = true
+				x.Fun = vsel("Close")
+			}
+		case *ast.BinaryExpr:
+			x.X, x.Y = fix(x.X), fix(x.Y)
+		case *ast.ParenExpr:
+			x.X = fix(x.X)
+		case *ast.StarExpr:
+			x.X = fix(x.X)
+		case *ast.SelectorExpr:
+			x.X = fix(x.X)
+		case *ast.IndexExpr:
+			x.X, x.Index = fix(x.X), fix(x.Index)
+		case *ast.SliceExpr:
+			x.X = fix(x.X)
+		case *ast.TypeAssertExpr:
+			x.X = fix(x.X)
+		case *ast.KeyValueExpr:
+			x.Value = fix(x.Value)
+		case *ast.CompositeLit:
+			for i := range x.Elts {
+				x.Elts[i] = fix(x.Elts[i])
+			}
+		}
+		return e
+	}
+	fixList := func(l []ast.Expr) {
+		for i := range l {
+			l[i] = fix(l[i])
+		}
+	}
+	var fixSimple func(st ast.Stmt)
+	fixSimple = func(st ast.Stmt) {
+		switch x := st.(type) {
+		case nil:
+		case *ast.ExprStmt:
+			x.X = fix(x.X)
+		case *ast.AssignStmt:
+			fixList(x.Rhs)
+		case *ast.ReturnStmt:
+			fixList(x.Results)
+		case *ast.IncDecStmt:
+		case *ast.SendStmt:
+			x.Value = fix(x.Value)
+		case *ast.DeferStmt:
+			if c, ok := fix(x.Call).(*ast.CallExpr); ok {
+				x.Call = c
+			}
+		case *ast.DeclStmt:
+			if gd, ok := x.Decl.(*ast.GenDecl); ok {
+				for _, sp := range gd.Specs {
+					if vs, ok := sp.(*ast.ValueSpec); ok {
+						fixList(vs.Values)
+					}
+				}
+			}
+		case *ast.IfStmt:
+			fixSimple(x.Init)
+			x.Cond = fix(x.Cond)
+		case *ast.ForStmt:
+			fixSimple(x.Init)
+			if x.Cond != nil {
+				x.Cond = fix(x.Cond)
+			}
+			fixSimple(x.Post)
+		case *ast.SwitchStmt:
+			fixSimple(x.Init)
+			if x.Tag != nil {
+				x.Tag = fix(x.Tag)
+			}
+		case *ast.RangeStmt:
+			x.X = fix(x.X)
+		}
+	}
+	fixSimple(s)
+}
+
+// selectToVsyncB: a select whose cases are receives (binding or not) and an optional default ->
+//
+//	switch verifI, verifV, verifOk := verifvsync.SelectB(def, ch0, ch1...); verifI {
+//	case 0: x := verifvsync.Cast(ch0, verifV); _ = verifOk; body...
+//
+// A send case is not supported (hard error).
+func selectToVsyncB(st *ast.SelectStmt, path string, fset *token.FileSet) ast.Stmt {
+	var chans []ast.Expr
+	var clauses []ast.Stmt
+	hasDefault := false
+	idx := 0
+	use := func(n string) ast.Stmt {
+		return &ast.AssignStmt{Lhs: []ast.Expr{ast.NewIdent("_")}, Tok: token.ASSIGN, Rhs: []ast.Expr{ast.NewIdent(n)}}
+	}
+	for _, c := range st.Body.List {
+		cc := c.(*ast.CommClause)
+		if cc.Comm == nil {
+			hasDefault = true
+			clauses = append(clauses, &ast.CaseClause{
+				List: []ast.Expr{&ast.UnaryExpr{Op: token.SUB, X: &ast.BasicLit{Kind: token.INT, Value: "1"}}},
+				Body: cc.Body,
+			})
+			continue
+		}
+		var pre []ast.Stmt
+		switch cm := cc.Comm.(type) {
+		case *ast.ExprStmt:
+			ue, ok := cm.X.(*ast.UnaryExpr)
+			if !ok || ue.Op != token.ARROW {
+				die("%s: unsupported select case", fset.Position(cc.Pos()))
+			}
+			chans = append(chans, ue.X)
+		case *ast.AssignStmt:
+			if len(cm.Rhs) != 1 {
+				die("%s: unsupported select case", fset.Position(cc.Pos()))
+			}
+			ue, ok := cm.Rhs[0].(*ast.UnaryExpr)
+			if !ok || ue.Op != token.ARROW {
+				die("%s: unsupported select case", fset.Position(cc.Pos()))
+			}
+			chans = append(chans, ue.X)
+			cast := &ast.CallExpr{Fun: vsel("Cast"), Args: []ast.Expr{ue.X, ast.NewIdent("verifV")}}
+			rhs := []ast.Expr{cast}
+			if len(cm.Lhs) == 2 {
+				rhs = append(rhs, ast.NewIdent("verifOk"))
+			}
+			pre = append(pre, &ast.AssignStmt{Lhs: cm.Lhs, Tok: cm.Tok, Rhs: rhs})
+		default:
+			die("%s: select with a send case is not supported by the channel rewrite", fset.Position(cc.Pos()))
+		}
+		clauses = append(clauses, &ast.CaseClause{
+			List: []ast.Expr{&ast.BasicLit{Kind: token.INT, Value: strconv.Itoa(idx)}},
+			Body: append(pre, cc.Body...),
+		})
+		idx++
+	}
+	def := "false"
+	if hasDefault {
+		def = "true"
+	}
+	args := append([]ast.Expr{ast.NewIdent(def)}, chans...)
+	init := &ast.AssignStmt{
+		Lhs: []ast.Expr{ast.NewIdent("verifI"), ast.NewIdent("verifV"), ast.NewIdent("verifOk")},
+		Tok: token.DEFINE,
+		Rhs: []ast.Expr{&ast.CallExpr{Fun: vsel("SelectB"), Args: args}},
+	}
+	// the three variables are used even when no case binds a value
+	first := &ast.CaseClause{List: []ast.Expr{&ast.UnaryExpr{Op: token.SUB, X: &ast.BasicLit{Kind: token.INT, Value: "2"}}},
+		Body: []ast.Stmt{use("verifV"), use("verifOk")}}
+	return &ast.SwitchStmt{Init: init, Tag: ast.NewIdent("verifI"), Body: &ast.BlockStmt{List: append([]ast.Stmt{first}, clauses...)}}
 }
 
 // selectToVsync: non-binding receive-only select -> switch verifvsync.Select(def, chans...)
